@@ -90,6 +90,9 @@ func (rc *Config) Router(logger *zap.Logger, resolvers []dns.SimpleResolver, res
 		if err != nil {
 			return nil, fmt.Errorf("failed to load domain set %q: %w", dsc.Name, err)
 		}
+		if _, ok := domainSetMap[dsc.Name]; ok {
+			return nil, fmt.Errorf("duplicate domain set name: %q", dsc.Name)
+		}
 		domainSetMap[dsc.Name] = domainSet
 	}
 
@@ -99,6 +102,9 @@ func (rc *Config) Router(logger *zap.Logger, resolvers []dns.SimpleResolver, res
 		s, err := psc.LoadPrefixSet()
 		if err != nil {
 			return nil, fmt.Errorf("failed to load prefix set %q: %w", psc.Name, err)
+		}
+		if _, ok := prefixSetMap[psc.Name]; ok {
+			return nil, fmt.Errorf("duplicate prefix set name: %q", psc.Name)
 		}
 		prefixSetMap[psc.Name] = s
 	}
